@@ -10,7 +10,9 @@ mod gen_lin;
 mod heapcheck;
 mod mach_axcut;
 mod mach_core;
+mod mutate_ty;
 mod tc_axcut;
+mod tc_core;
 mod native;
 mod pipeline;
 mod ref_fun;
